@@ -43,6 +43,8 @@ def scan_trusted_base():
     text = open(ann).read()
     n = len(re.findall(r"\badmit\(\)|(?<![:\w_])assume\(|external_body", text))
     out.append(f"contracts/verus/annotations.py: {n} x assume/admit/external_body in spliced contract text")
+    out.append("verus/mheap.rs: mutable heap shim (verified HashMap code) standing for RcBox.links: RefCell<Links> borrow/borrow_mut modelled as taking the table out and putting it back; MaybeUninit access and pointer validity become has(p)")
+    out.append("verus/heap.rs: read-only heap shim standing for NonNull<RcBox>::as_ref + RefCell::borrow on the trace path")
     out.append("kani/verif/vmap.rs: table stand-in for hashbrown under cfg(kani) (assumed contract on the dependency)")
     out.append("verus: vstd's specifications of std::collections::HashMap/HashSet/Vec/Option and of hash-map iteration")
     return out
@@ -54,10 +56,11 @@ def contract_texts():
     out = {}
     try:
         import extract
-        LINK, CYCLE, _ = extract.load_annotations(VERIF)
-        for k, v in list(LINK.items()) + list(CYCLE.items()):
+        LINK, CYCLE, _, ADOPT, DROP = extract.load_annotations(VERIF)
+        for k, v in list(LINK.items()) + list(CYCLE.items()) + list(ADOPT.items()) + list(DROP.items()):
             if isinstance(v, dict) and v.get("spec"):
                 out["V." + k] = " ".join(v["spec"].split())
+        out["V.drop_unreachable_with_adoptions.unlink_prefix"] = out.get("V.drop_unreachable_with_adoptions", "")
     except Exception:
         pass
     try:
